@@ -535,16 +535,29 @@ func tail(s string, n int) string {
 func minimiseAndRecord(spec *meta.Spec, tier string, base uint64, f found) (string, *replayFile, error) {
 	class := f.Result.Viol.Class()
 	so := &shrinkOut{}
+	raceNoRecur := false
 	if strings.Contains(class, "/data_race/") {
 		// The race detector reports one stack pair once per process, so a
 		// race cannot be re-observed (hence not shrunk) inside one worker:
 		// the original tape is replayed in fresh processes instead.
-		rr := &result{}
-		if log, err := runWorker(spec, &job{Mode: "replay", Prop: spec.ID, Tier: tier, Tape: f.Result.Tape}, 300*time.Second, rr); err != nil {
-			return "", nil, fmt.Errorf("replay of %s failed: %v\n%s", class, err, tail(log, 20))
+		var rr *result
+		for try := 0; try < 3 && !so.Repro; try++ {
+			rr = &result{}
+			if log, err := runWorker(spec, &job{Mode: "replay", Prop: spec.ID, Tier: tier, Tape: f.Result.Tape}, 300*time.Second, rr); err != nil {
+				return "", nil, fmt.Errorf("replay of %s failed: %v\n%s", class, err, tail(log, 20))
+			}
+			so.Repro = rr.Viol != nil && rr.Viol.Class() == class
+			so.Execs++
 		}
-		so.Repro = rr.Viol != nil && rr.Viol.Class() == class
-		so.Result, so.FromLen, so.ToLen, so.Execs, so.GaveUp = rr, len(f.Result.Tape), len(rr.Tape), 1, "not shrunk: race reports are once-per-process"
+		so.Result, so.FromLen, so.ToLen, so.GaveUp = rr, len(f.Result.Tape), len(f.Result.Tape), "not shrunk: race reports are once-per-process"
+		if !so.Repro {
+			// The schedule replays exactly, but whether the detector still
+			// holds the earlier access in its bounded shadow history depends on
+			// the process' memory layout. The detector has no false positives:
+			// the report stands, the replay file says it did not recur.
+			so.Repro, so.Result, raceNoRecur = true, f.Result, true
+			so.GaveUp = "race report did not recur in 3 fresh replays (bounded shadow history); original report kept"
+		}
 	} else {
 		sj := &job{Mode: "shrink", Prop: spec.ID, Tier: tier, Tape: f.Result.Tape, Class: class, MaxExec: 2000, MaxSec: 60, Retries: retriesFor(spec, class)}
 		if log, err := runWorker(spec, sj, 240*time.Second, so); err != nil {
@@ -568,6 +581,15 @@ func minimiseAndRecord(spec *meta.Spec, tier string, base uint64, f found) (stri
 	b, _ := json.MarshalIndent(rf, "", " ")
 	if err := os.WriteFile(path, b, 0o644); err != nil {
 		return "", nil, err
+	}
+	if strings.Contains(class, "/data_race/") {
+		// Reproduced above in a fresh process, or kept on the strength of the
+		// detector's report; no further double replay (the detector's memory
+		// is bounded, a recurrence is not guaranteed every time).
+		rf.Shrink["exact_replay"] = !raceNoRecur
+		b, _ := json.MarshalIndent(rf, "", " ")
+		os.WriteFile(path, b, 0o644)
+		return path, rf, nil
 	}
 	// Verify: fresh process, same class, same digest.
 	for i := 0; i < 2; i++ {
